@@ -224,6 +224,22 @@ CHECKS = {
              "Defect found and repaired: read_dataset's ERA5 branch.",
         technique="TLA+ quantity algebra of the unit/direction conventions + TLC invariants + replay of every state",
         ref="§4 C12", engine="tlc"),
+    "C13": dict(
+        text="formats/Instruments.tla specifies the unit factor of every format as a quantity algebra (rational x power of pi x power "
+             "of rho*g), the direction mappings (bijections on the direction lattice; WW3 going-to = opposite direction, SWAN CDIR = "
+             "cartesian), the reconstruction identity of the NDBC spreading on exact 60/90-degree lattices (integrates to the frequency "
+             "spectrum; two directions do not) and the record-order contract (any permutation of the records / files is returned once "
+             "each, sorted by time); TLC checks these and enumerates format x header variant x 1..3(4) records x every record "
+             "permutation x grid sizes x 1-D request x points. Every case is written by independent reference encoders "
+             "(harness/instruments.py, written from the formats and vendor samples; every printed token parses back to the same "
+             "double), read by the real reader and compared: timestamps, frequencies, directions, positions, densities; for "
+             "reconstructing readers sum(efth*dd) and the 1-D request against the file's frequency spectrum. The specification's factor "
+             "table is cross-checked against the encoders' expectations; vendor samples are decoded independently.",
+        note="Trusted: TLC, the reference encoders (their self-consistency is checked: permuting records never changes the sorted "
+             "expectation; tokens round-trip). Five defects repaired (TRIAXYS frequency grid, NDBC history r1/r2 scale, XWaves double date "
+             "vectors, record order in four readers); open findings: Spotter JSON spectra timestamps, multi-point WW3 station files.",
+        technique="TLA+ unit/direction/record-order model + TLC case enumeration realised by independent reference encoders and read by the real readers",
+        ref="§4 C13", engine="tlc"),
     "C11": dict(
         text="SWAN ASCII is specified as a record grammar with a writer automaton and a reader automaton (formats/Swan.tla); TLC "
              "checks RoundTrip = Read(Write(ds)) over every assignment of {missing, zero, A, B} to the positions of station lists and "
